@@ -15,6 +15,7 @@ pub mod c14;
 pub mod c15;
 pub mod c16;
 pub mod c17;
+pub mod c18;
 pub mod c19;
 
 use crate::run::RunCtx;
@@ -38,6 +39,7 @@ pub fn dispatch(prop: &str, rc: &mut RunCtx) -> bool {
         "C15" => c15::run(rc),
         "C16" => c16::run(rc),
         "C17" => c17::run(rc),
+        "C18" => c18::run(rc),
         "C19" => c19::run(rc),
         _ => return false,
     }
